@@ -144,6 +144,16 @@ func TestC07Lapse(t *testing.T) {
 		Gen:  func(t *rapid.T) vh.ShimCase { return vh.GenShimCase(t, pr) }, Exec: exec})
 }
 
+// TestC07Open: short histories in which a certificate's validity window OPENS during the history. A
+// premature certificate that a listing, signers call or signature has seen is purged - it does not come
+// back when its window opens; one that nothing has looked at yet becomes an ordinary valid certificate.
+func TestC07Open(t *testing.T) {
+	pr := vh.ShimProfile{Validities: []string{"opening", "opening", "current", "forever"}, KeyIDClasses: []string{"ysshca1", "text"}, MaxOps: 12}
+	vh.Run(t, vh.Spec[vh.ShimCase]{Property: "C07", Name: "TestC07Open",
+		Rule: "short histories (<= 12 operations) in which one certificate has ValidAfter = start + 3 s (held by the underlying agent, registered as in-memory hardware certificate, or both) and steps that wait for that moment are frequent; same reference model and oracle, evaluated at the time of each step: what a listing / signers call / signature found premature is purged from memory and from the underlying agent and stays purged after the window has opened; steps that would straddle the moment wait for it first",
+		Gen:  func(t *rapid.T) vh.ShimCase { return vh.GenShimCase(t, pr) }, Exec: exec})
+}
+
 // TestC07HeldSigner: the caller keeps what Signers() returned while a certificate was still valid and
 // asks one of those signers for a signature after the certificate has lapsed, with no other call on
 // the shim agent in between. "A signing request naming a purged certificate fails" - through whatever
